@@ -70,6 +70,24 @@ def gen(c):
             for fmt in (1, 2):
                 add("f64", f64bits(v), fmt, p)
             add("f64", f64bits((2 * n + 1) * 0.5), 1, 0)
+    # many zeros between the point and the first digit in the fixed layouts (the zero-filling helpers work in chunks of 19)
+    for k in (range(17, 40) if c.thorough else (18, 19, 20, 21, 24, 30, 38, 39)):
+        for m in ("1", "2.5", "9.9999999999", "%d.%d" % (rnd.randint(1, 9), rnd.randint(0, 10 ** 6))):
+            v = float("%se-%d" % (m, k))
+            for fmt in (1, 2):
+                for p in sorted({k, k + 1, min(40, k + 6), 40}):
+                    add("f64", f64bits(v if rnd.random() < 0.7 else -v), fmt, p)
+            add("f32", f32bits(v), rnd.choice((1, 2)), 40)
+    # near ties at the cut digit: p significant digits (the last one even or odd), then 5, then nothing / zeros and a 1 / 4999..., at magnitudes
+    # where the integer part has fewer, as many and many more digits than the precision (the value is whatever double is nearest)
+    for p in range(1, 18):
+        for _ in range(8 if c.thorough else 2):
+            head = str(rnd.randint(1, 9)) + "".join(rnd.choice("0123456789") for _ in range(p - 1))
+            for tail in ("5", "5" + "0" * rnd.randint(0, 7) + "1", "4" + "9" * rnd.randint(1, 9), "50000000000000000000001"):
+                mag = rnd.choice([rnd.randint(-8, 0), rnd.randint(1, p), rnd.randint(p + 1, p + 12), rnd.randint(20, 40), rnd.randint(-300, 300)])
+                v = float("%s.%s%se%d" % (head[0], head[1:], tail, mag - 1))
+                for fmt in ((0, 1, 2) if c.thorough else (0, rnd.choice((1, 2)))):
+                    add("f64", f64bits(v if rnd.random() < 0.8 else -v), fmt, p)
     for _ in range(6000 if c.thorough else 1200):
         r = rnd.random()
         if r < 0.35:
@@ -117,7 +135,7 @@ def main():
         n = max(0, r.distinct - 65)
         nbad = 0
         shown = {}
-        for cls in ("MISMATCH", "P0", "ROUND", "ZEROS"):
+        for cls in ("MISMATCH", "P0", "ROUND", "ROUNDX", "ZEROS"):
             for t in r.tuples(cls):
                 nbad += 1
                 e = evs[t[1] - 1]
